@@ -451,7 +451,10 @@ func checkQueueMutex(c *Ctx, p *core.Prog, fns []*ssa.Function, flows map[*ssa.F
 			}
 		}
 	}
-	c.R.RequireMin("R14.4", "queue operations in goroutines", len(qops), 2)
+	// (no floor on the number of queue operations: a design in which the goroutines hand their results over by other means -
+	// result slots, a channel - has none in the concurrent region, and the rule then holds trivially; the count of functions
+	// that can run in spawned goroutines above shows that the region itself was found)
+	c.R.Count("R14.4:queue operations in goroutines", len(qops))
 
 }
 
@@ -796,6 +799,28 @@ type initSite struct {
 
 // behindInit: the instruction (in fn) is dominated by an initialising critical section on the
 // same object, either in fn itself or (when the object is a parameter) at every call site of fn.
+// initCallBefore: the instruction `at` of g comes after a call of a helper that is itself an initialising critical section
+// on its parameter (it locks, tests the field for nil, assigns it), handed the object with access path base.
+func initCallBefore(g *ssa.Function, at ssa.Instruction, base string, inits []initSite) bool {
+	for _, call := range core.CallsIn(g) {
+		h := eng.ResolveCallee(call.Common().Value)
+		if h == nil || !instrBeforeI(call, at) || call == at {
+			continue
+		}
+		for _, it := range inits {
+			if it.fn != h {
+				continue
+			}
+			for k, q := range h.Params {
+				if core.AP(q) == it.base && k < len(call.Common().Args) && core.AP(call.Common().Args[k]) == base {
+					return true
+				}
+			}
+		}
+	}
+	return false
+}
+
 func behindInit(p *core.Prog, fn *ssa.Function, at ssa.Instruction, prm *ssa.Parameter, inits []initSite, fns []*ssa.Function, depth int) (bool, string) {
 	base := ""
 	if prm != nil {
@@ -805,6 +830,9 @@ func behindInit(p *core.Prog, fn *ssa.Function, at ssa.Instruction, prm *ssa.Par
 		if it.fn == fn && it.test != at.Block() && it.test.Dominates(at.Block()) && (base == "" || it.base == base) {
 			return true, "dominated by the nil-test/assignment critical section at " + p.Pos(it.store.Pos())
 		}
+	}
+	if base != "" && initCallBefore(fn, at, base, inits) {
+		return true, "behind a call of the helper that holds the nil-test/assignment critical section"
 	}
 	if prm == nil {
 		return false, "the object read is not a parameter and no initialising critical section dominates the read"
@@ -835,6 +863,9 @@ func behindInit(p *core.Prog, fn *ssa.Function, at ssa.Instruction, prm *ssa.Par
 				if it.fn == g && it.base == core.AP(arg) && it.test != call.Block() && it.test.Dominates(call.Block()) {
 					ok = true
 				}
+			}
+			if !ok && initCallBefore(g, call, core.AP(arg), inits) {
+				ok = true
 			}
 			if !ok {
 				if ap := rootParam(arg); ap != nil && ap == core.Unspill(arg) {
